@@ -418,6 +418,26 @@ class SymBool:
     def logical_not(self):
         return ~self
 
+    # truth values used as numbers (numpy sums / products of boolean object arrays)
+    def __add__(self, o):
+        return lift(self) + o
+
+    __radd__ = __add__
+
+    def __mul__(self, o):
+        return lift(self) * o
+
+    __rmul__ = __mul__
+
+    def __sub__(self, o):
+        return lift(self) - o
+
+    def __rsub__(self, o):
+        return o - lift(self)
+
+    def __truediv__(self, o):
+        return lift(self) / o
+
     def __repr__(self):
         return f"SymBool({self.const if self.const is not None else self.z3})"
 
@@ -746,6 +766,10 @@ class Sym:
 
     # -- comparisons ----------------------------------------------------------------------
     def _cmp(self, o, op):
+        if isinstance(o, (float, np.floating)) and math.isinf(float(o)):
+            # x op +-inf for a finite real x
+            pos = float(o) > 0
+            return SymBool({"<": pos, "<=": pos, ">": not pos, ">=": not pos}[op])
         try:
             o = lift(o)
         except TypeError:
